@@ -163,7 +163,14 @@ class Extension:
 def _gettext_alias(
     __context: Context, *args: t.Any, **kwargs: t.Any
 ) -> t.Any | Undefined:
-    return __context.call(__context.resolve("gettext"), *args, **kwargs)
+    func = __context.resolve("gettext")
+    env = __context.environment
+
+    # Calls written in a sandboxed template go through the sandbox.
+    if env.sandboxed:
+        return env.call(__context, func, *args, **kwargs)  # type: ignore
+
+    return __context.call(func, *args, **kwargs)
 
 
 def _make_new_gettext(func: t.Callable[[str], str]) -> t.Callable[..., str]:
